@@ -500,7 +500,7 @@ fn run_wide_sized(s: &mut Session, sized: Option<(&str, usize)>, pre: &str, post
             } else {
                 let field = &line[pre.len()..line.len() - post.len()];
                 // "a truncating field as wide as the rest of the line"; when nothing follows it in the
-                // line its trailing white space is trimmed (style.rs:472-475)
+                // line its trailing white space is trimmed (style.rs:476-479)
                 let res = if post.is_empty() {
                     match expected_exact(msg, &cm, left, al) {
                         // fits, or 1-byte/1-column content: the field is the expected one minus trailing white space
@@ -696,7 +696,7 @@ fn main() {
             let w = if g.r.chance(1, 40) { None } else { Some(g.width_for(mtw(&content))) };
             let tr = g.r.chance(1, 2);
             let post = g.literal(true);
-            // an entirely empty line is not drawn at all (style.rs:393): keep one literal
+            // an entirely empty line is not drawn at all (style.rs:397): keep one literal
             let pre = g.literal(!post.is_empty());
             run_field(&mut s, &pre, &post, key, &content, w, al, tr, implicit, label);
         }
